@@ -386,7 +386,8 @@ def summarise(cases, obs, recs, fails, drifts, runs):
 
 def norm_msg(m):
     import re
-    m = re.sub(r"[a-z]+_[a-z0-9_]{4}\b", "<name>", m)
+    m = re.sub(r'\\?"[^"\\]*\\?"', "<s>", m)
+    m = re.sub(r"\b(map|reduce|join|set|field|table|relation|values|left_)_[a-z0-9_]{4}\b", "<name>", m)
     m = re.sub(r"\d+", "N", m)
     return m[:160]
 
